@@ -363,6 +363,7 @@ fn strat_frag(_t: Tier) -> proptest::strategy::BoxedStrategy<FragCase> {
 
 pub fn def() -> PropertyDef {
     PropertyDef {
+        fuzz_targets: &[],
         id: "C19",
         level: "exploration",
         rule: "all codec x audio (6 AAC profiles, Opus 1..8 channels) x metadata x layout configurations with 0..3 frames, dims 1..65535, 13 rates, and \
